@@ -160,6 +160,41 @@ def gen(rng, tier):
     return cases
 
 
+
+def extra_checks(runner, rng, tier, stats, seed):
+    """the CLOSING side is a library TLS socket, destroyed while its send path is congested and while it holds unread input
+    (harness/scen/tls_close.cpp; real loopback, real time, no shim): every byte its Send calls reported must reach the peer
+    before the peer's Receive reports the closure.  The verdict is the property's own wording (complete stream for an orderly
+    close) evaluated on byte counts; testing of the runtime part the model cannot exhibit (kernel RST-on-close-with-unread-data),
+    labelled as such."""
+    import os
+    import vlib
+    out = []
+    exe = vlib.build_harness("tls_close", "tls", ["scen/tls_close.cpp"], libs=["-lssl", "-lcrypto"])
+    k = 4 if tier == "quick" else 40
+    cases = [("tc%d" % i, ["close %d %s %d" % (rng.randrange(10**6), ("basic", "buffered")[i % 2], (0, 5, 0, 20)[i % 4])]) for i in range(k)]
+    res = vlib.run_cases(exe, cases, jobs=4, env={"VERIF_CERTS": os.path.join(vlib.HARNESS, "certs")}, timeout_per_case=60)
+    n = 0
+    for cid, ops in cases:
+        tr = res.get(cid, [])
+        if any(l.startswith("-> ok") for l in tr):
+            n += 1
+            continue
+        if any("set-up" in l for l in tr):       # environment (loopback refused): not a verdict
+            continue
+        path = vlib.write_replay(ID, "C15_%s_tls_close.replay" % tier,
+                                 "property: C15\nkind: impl-spec-failure (library TLS socket destroyed while congested, with unread input)\n"
+                                 "harness: harness/scen/tls_close.cpp (flavour tls)\nops: %s\nobserved:\n  %s\n" % (ops, "\n  ".join(tr)))
+        out.append(("spec", path, True, "orderly close of a congested TLS sender: " + " ".join(tr)[-300:]))
+        break
+    stats["tls_close_runs"] = n
+    return out
+
+
+def extra_coverage(stats):
+    return {"tls_congested_close_runs_ok": stats.get("tls_close_runs", 0)}
+
+
 TECHNIQUE = ("Lean 4 theorems over all kernel answer scripts followed by K1 (dead-peer defaults) + replay correspondence of the real "
              "sockets against a peer that closes / half-closes / resets at chosen offsets, each case in a forked child; the run-time "
              "oracle is a separate typed module (Spec/C15.lean: specRun / specFinal over Obs) proved to accept every trace of the "
